@@ -97,7 +97,7 @@ def gen_marker(rng, n, tier):
             near = lambda t: rng.choice([t, math.nextafter(t, math.inf), math.nextafter(t, -math.inf), t * (1 + 1e-12), t * (1 - 1e-12), t * (1 + 3e-10), t + abs(t) * 1e-15, 0.1 + 0.2, 3 * 1.1, None, 0.0])
             cols = [[near(thr[j]) for _ in range(k)] for j in range(nf)]
         out.append({'mode': rng.choice([1, 2]), 'thr': thr, 'via': rng.choice(['fn', 'fn', 'collection']), 'nameset': rng.choice([None, None, None, 'ops', 'other', 'repeat']),
-                    'cols': cols, 'scalar': nf == 1 and rng.random() < 0.5,
+                    'cols': cols, 'scalar': nf == 1 and rng.random() < 0.5, 'mixed': rng.choice([None, 'ls', 'sl']) if nf == 1 else None,
                     # a third of the cases first run another segmentation into the same output feature (other thresholds, other mode): the second run must overwrite it
                     'before': ([rng.choice([0.0, 1.0, 2.0, 2.5, -2.0]) for _ in range(nf)], rng.choice([1, 2])) if rng.random() < 0.33 else None})
         c = out[-1]
@@ -143,6 +143,12 @@ def run_marker(case):
         from tracklib.core import TrackCollection
         col = TrackCollection([tr])
         col.segmentation(names[0] if case['scalar'] else names, OUT, case['thr'][0] if case['scalar'] else list(case['thr']), case['mode'])
+    elif case.get('mixed') and len(names) == 1:
+        # one tested feature, the feature given as a list and its threshold as a bare number (or the other way round): the four ways of writing the call mean the same
+        if case['mixed'] == 'ls':
+            sg.segmentation(tr, [names[0]], OUT, case['thr'][0], case['mode'])
+        else:
+            sg.segmentation(tr, names[0], OUT, [case['thr'][0]], case['mode'])
     elif case['scalar']:
         sg.segmentation(tr, names[0], OUT, case['thr'][0], case['mode'])
     else:
